@@ -35,13 +35,22 @@ def body(tier: str, seed: int) -> int:
     bitc.pin_domains(allc, tier, seed)
     allc.sort(key=lambda c: -c.max_ops)  # the expensive ones first: the pool hands out one contract at a time
     stl.run_contracts(rep, allc, tier, seed, PROP)
+    cap = 4096 if thorough else 256
+    rep.bounded[-1]['domain'] = (
+        f'{len(cs)} macro applications + {len(seqs)} sequential compositions of 2-4 of them on shared variables (every composable one first and later); '
+        f'operand tuples: all of them where <= {cap} (shuffled order, consecutive executions on ONE assembled instance so that leaked state shows), '
+        f'corners + crc32-seeded random beyond, as many as {8.0 if thorough else 2.5} s per (application, width) allow (2 s per composition, at least 64)'
+        + ('; every operand pair at n = 8 for add, sub, xor, or, and, mov, xor_zero, swap, cmp (one width each)' if thorough else '')
+        + f'; vector lengths {sorted({v.n for c in cs for v in c.vars.values()})}; widths {sorted({w for c in allc for w in (c.widths if thorough else c.widths[:1])})}'
+        + ' (a base application runs at ' + ('all three' if thorough else 'ONE width, chosen by n mod 3') + ', a composition at one; w = 16 is skipped where the application does not fit in 2^16 bits)'
+    )
     rep.extra['macros_under_contract'] = sorted({c.name for c in cs})
     rep.extra['compositions'] = len(seqs)
     ev = bitc.width_events()
     rep.extra['does_not_fit_in_16_bits_of_memory'] = dict(skipped_at_w16=sum(1 for e in ev if e[0] == 'skip'), executed_at_another_width_instead=sum(1 for e in ev if e[0] == 'fallback'), applications=sorted({e[3] for e in ev})[:400])
     rep.assume('[B] bounded: operand tuples exhaustive only where the product of the operand ranges is small; vector lengths and widths are the listed ones')
     rep.assume('[B] compositions: sequences of 2-4 non-jumping applications (the conditional jumps through flag-setting wrappers) on shared variables of one length, not every order')
-    rep.assume('readings of the documentation that are not literal: bit.neg (comment says x[:n]--), bit.inc1 / add1 ({carry:dst} = dst + carry [+ src]), bit.div10.cmp_sub_10 ("> 10" read as ">= 10") - see contracts/fj/bit.py')
+    rep.assume('reading of the documentation that is not literal: bit.inc1 / add1 / inc1_with_carry0_jump `{carry:dst}++`, `{carry:dst} += src` taken as {carry:dst} = dst + carry [+ src] ("carry is both input and output") - see contracts/fj/bit.py')
     rep.trust('spec/machine.py as the engine (C01 relates the real engines to it); the real assembler and reader produce the image (C02, C06, C15)')
     return rep.finish()
 
